@@ -37,7 +37,7 @@ ASSUMPTIONS = ['real os.fork() on Linux; sqlite3 3.40 file database in rollback-
                'process blocked in SQLiteProvider.acquire_lock']
 SHARDS = {'quick': 4, 'thorough': 16}
 MIN_EVALS = {'quick': 500, 'thorough': 5000}
-CLASS_FLOORS = {'sqlite': 0.3, 'pool:generic': 0.1, 'pool:oracle': 0.1, 'nontrivial': 0.3}
+CLASS_FLOORS = {'sqlite': 0.3, 'pool:generic': 0.1, 'pool:oracle': 0.1, 'nontrivial': 0.25}
 
 CHILD_FIRST_OPS = [['read'], ['write'], ['getconn'], ['disconnect', 'read'], ['rollback', 'read', 'write'], [['fork', ['read', 'write']]]]
 PARENT_SCRIPTS = [[], ['read'], ['commit', 'read'], ['end_session', 'write']]
@@ -52,10 +52,10 @@ def grid_cases():
                     out.append(normalise({'kind': 'sqlite', 'parent_state': state, 'order': order,
                                           'child': child, 'parent_after': after}))
     # another thread of the parent holds the open write transaction (and pony's SQLite transaction lock)
-    for child in (['read'], ['write'], ['getconn'], [['fork', ['read', 'write']]]):
-        for after in ([], ['read']):
-            out.append({'kind': 'sqlite', 'parent_state': 'thread_open_write', 'order': 'child_first',
-                        'child': child, 'parent_after': after})
+    for child, after in ((['read'], []), (['read'], ['read']), (['write'], []), (['getconn'], []),
+                         ([['fork', ['read', 'write']]], [])):
+        out.append({'kind': 'sqlite', 'parent_state': 'thread_open_write', 'order': 'child_first',
+                    'child': child, 'parent_after': after})
     return out
 
 
@@ -205,10 +205,12 @@ def replay(case):
 # ------------------------------------------------------------------------------------------------
 # open known findings (see known_findings.json): narrow predicates by root cause
 def _fork_inside_open_session(case, message):
-    """fork while a db_session of the parent already holds a connection (SessionCache.connection): the child inherits
-    local.db_session / local.db2cache, so its db_sessions are nested in the inherited one and run on the parent's
-    connection; fork detection exists only in Pool.connect()."""
-    return (case.get('kind') == 'sqlite' and case.get('parent_state') in J.OPEN_WITH_CONNECTION
+    """fork while a db_session of the forking process already holds a connection (SessionCache.connection): the child
+    inherits local.db_session / local.db2cache, so its db_sessions are nested in the inherited one and run on the
+    forking process's connection; fork detection exists only in Pool.connect().  The judge tags exactly these events:
+    the connection used was held by an open db_session of its creator at the fork (the parent's session connection, or
+    a connection of a child that lives inside the never-ending inherited session and forks again)."""
+    return (case.get('kind') == 'sqlite' and case.get('parent_state') in J.OPEN_STATES
             and message.startswith('[inherited-session]'))
 
 
